@@ -126,6 +126,8 @@ impl SortedWritesTable {
         next_ts: Value,
         exec_state: &mut ExecutionState,
     ) -> bool {
+        #[cfg(feature = "verif-hooks")]
+        crate::verif::hit(crate::verif::Site::table_rebuild_incremental);
         self.refresh_rebuild_index();
         let mut buf = TaggedRowBuffer::new(1);
         table.scan_project(
@@ -138,6 +140,8 @@ impl SortedWritesTable {
         );
 
         if parallelize_rebuild(to_scan.size()) {
+            #[cfg(feature = "verif-hooks")]
+            crate::verif::hit(crate::verif::Site::table_rebuild_parallel);
             WrappedTableRef::with_wrapper(self, |wrapped| {
                 let ids = buf.iter().map(|(_, row)| row[0]).collect::<Vec<_>>();
                 parallel::map(&ids, |_, id| {
@@ -194,7 +198,11 @@ impl SortedWritesTable {
         exec_state: &mut ExecutionState,
     ) -> bool {
         const STEP_SIZE: usize = 2048;
+        #[cfg(feature = "verif-hooks")]
+        crate::verif::hit(crate::verif::Site::table_rebuild_nonincremental);
         if parallelize_rebuild(self.data.next_row().index()) {
+            #[cfg(feature = "verif-hooks")]
+            crate::verif::hit(crate::verif::Site::table_rebuild_parallel);
             let max_row = self.data.next_row().index();
             let starts = (0..max_row).step_by(STEP_SIZE).collect::<Vec<_>>();
             parallel::map(&starts, |_, start| {
